@@ -10,6 +10,7 @@ import GenlmModel.Model.PrefixT
 import GenlmModel.Model.IncCky
 import GenlmModel.Model.UCycle
 import GenlmModel.Model.FsmWfsa
+import GenlmModel.Model.Earley
 import GenlmModel.Model.Cert
 import GenlmModel.Model.Linear
 import GenlmModel.Generated.Semiring
@@ -229,6 +230,24 @@ def opIncCky (j : Json) : E Json := do
   pure (Json.mkObj [("chart", .arr (ch.map colJ).toArray), ("call", Wt.toJson (incCkyCall G p)),
     ("p_next", pairsToJson (incCkyPNext G p)), ("parse", Wt.toJson (cfgParse G p))])
 
+/-- {"op":"earley","cfg":preprocessed grammar,"order":[[X,n]…],"x":[…]} → the Earley chart columns (complete and
+incomplete items with their values), the string weight and the un-normalised next-token weights — mirror model of earley.py -/
+def opEarley (j : Json) : E Json := do
+  let G : CFG Sx K ← cfgOfJson (← getField j "cfg")
+  let x ← sxList (← getField j "x")
+  let ordL ← (← getArr (← getField j "order")).mapM fun e => do
+    match ← getArr e with
+    | [a, n] => pure ((← sxOfJson a), (← getNat n))
+    | _ => throw "bad order entry"
+  let order : Sx → Nat := fun X => match ordL.find? (fun e => e.1 = X) with | some e => e.2 | none => 0
+  let cols := earleyChart G order x
+  let colJ (c : ECol Sx K) : Json := Json.mkObj [
+    ("k", .num ⟨c.k, 0⟩),
+    ("c", .arr (c.c_chart.map fun e => Json.arr #[.num ⟨e.1.1, 0⟩, sxToJson e.1.2, Wt.toJson e.2]).toArray),
+    ("i", .arr (c.i_chart.map fun e => Json.arr #[.num ⟨e.1.1, 0⟩, sxToJson e.1.2.1, .arr (e.1.2.2.map sxToJson).toArray, Wt.toJson e.2]).toArray)]
+  pure (Json.mkObj [("cols", .arr (cols.map colJ).toArray), ("call", Wt.toJson (earleyCall G order x)),
+    ("p_next", pairsToJson (earleyPNext G order x))])
+
 def opZn (j : Json) : E Json := do
   let G : CFG Sx K ← cfgOfJson (← getField j "cfg")
   opZnG G j
@@ -392,6 +411,7 @@ def runOpK [DecidableEq K] [HasInv K] [HasStar K] (op : String) (j : Json) : E J
   | "zn" => opZn (K := K) j
   | "mask" => opMask (K := K) j
   | "inccky" => opIncCky (K := K) j
+  | "earley" => opEarley (K := K) j
   | "pn" => opPn (K := K) j
   | "tpn" => opTpn (K := K) j
   | "fst_op" => opFstOp (K := K) j
